@@ -32,15 +32,15 @@ def _exp(E, x):
     return math.exp(x)
 
 
-def _decay_case(nprod, rest_kind):
+def _decay_case(nprod, rest_kind, tiny=False):
     def h(E):
         from periodictable import activation
         LN2 = activation.LN2
         rows, A0, lam = [], [], []
         for i in range(nprod):
-            T = E.real('Thalf%d' % i, lo=0, lo_open=True, hi=1e9, srange=(0.5, 50))
+            T = E.real('Thalf%d' % i, lo=0, lo_open=True, hi=1e9, srange=(0.5, 50) if not tiny else (1e4, 1e6))
             rows.append(activation.ActivationResult(Thalf_hrs=T, isotope='X-%d' % i, daughter='Y-%d' % i, reaction='act'))
-            A0.append(E.real('A0_%d' % i, lo=0, lo_open=True, hi=1e9, srange=(0.1, 100)))
+            A0.append(E.real('A0_%d' % i, lo=0, lo_open=True, hi=1e9, srange=(0.1, 100) if not tiny else (2e-8, 2e-7)))
             lam.append(LN2 / T)
         if rest_kind == 'zero_only':
             rests = [0]
@@ -60,7 +60,7 @@ def _decay_case(nprod, rest_kind):
         s.rest_times = list(rests)
         s.activity = {rows[i]: [A0[i] * Eij[i][j] for j in range(len(rests))] for i in range(nprod)}
         R0 = sum(A0)                                   # total activity at removal from the beam
-        target = E.real('target', lo=0, lo_open=True, hi=1e10, srange=(0.05 * 1, 40))
+        target = E.real('target', lo=0, lo_open=True, hi=1e10, srange=(0.05 * 1, 40) if not tiny else (1e-9, 1.5e-8))
         # the harness's own notion of the smallest rest time (forks consistently with the code's min())
         jmin = 0
         for j in range(1, len(rests)):
@@ -206,6 +206,10 @@ def cases(tier):
     for n, rk in combos:
         out.append(Case('decay_time[products=%d|rests=%s]' % (n, rk), _decay_case(n, rk), max_paths=mp, timeout_ms=to, nsamples=6,
                         portfolio=th, conc_rel=1e-6))
+    # concrete regime where the real find_root stops on its absolute tolerance with a poor relative residual
+    # (tiny activities, long half-lives): exercises the 0.1 % acceptance test / RuntimeError on real runs
+    out.append(Case('decay_time_tiny_activity[products=2|rests=zero_first]', _decay_case(2, 'zero_first', tiny=True), max_paths=mp, timeout_ms=to,
+                    nsamples=40 if not th else 200, conc_rel=1e-6))
     out.append(Case('no_activation', _degenerate_case, max_paths=4))
     for m in ((1, 2) if not th else (1, 2, 3)):
         out.append(Case('find_root_contract[max=%d]' % m, _find_root_case(m), max_paths=mp, timeout_ms=to, nsamples=1, validate=False))
